@@ -358,6 +358,15 @@ static void run_one(FILE* real_o, const RunSpec& r, std::mt19937_64& rng, const 
             std::string u = p.uci(all.list[i]);
             if (mode == "@allbutlast" && (!same || u != g_last_best)) rr.searchmoves.push_back(u);
             if (mode == "@last" && same && u == g_last_best) rr.searchmoves.push_back(u);
+            if (mode == "@nonmating")
+            {
+                // every legal move that does not deliver mate (a restricted search whose root value is not the position's value)
+                Position q = p;
+                q.do_move(all.list[i]);
+                MoveVec rep;
+                rep.gen(q);
+                if (!(rep.n == 0 && q.is_in_check(q.color()))) rr.searchmoves.push_back(u);
+            }
         }
         if (rr.searchmoves.empty() && all.n) rr.searchmoves.push_back(p.uci(all.list[all.n - 1]));
     }
